@@ -109,6 +109,9 @@ def main(argv):
         n = g.shards if isinstance(g.shards, int) else g.shards.get(tier, 1)
         for sh in range(n):
             btasks.append(('B', prop, name, tier, seed, sh, n))
+    if btasks and getattr(mod, 'NEEDS_EXT', False):
+        from pv import extbuild
+        os.environ['PV_EXT_SO'] = extbuild.build()
     # long bounded shards first
     alltasks = btasks + tasks
     nproc = int(os.environ.get('PV_PROCS', '16'))
